@@ -72,6 +72,7 @@ vars == <<c, h, mode, inst, stage, pos, known, genres, lro, phase, cur, calls, f
 P     == "acme.lr.v1"
 A     == "acme"             \* a package ENCLOSING the method's package (a dependency, imported by the service file)
 D     == "other.dep.v1"
+E     == "other.ext.v1"     \* a dependency package whose files the service file does NOT import
 OP    == "google.longrunning.Operation"
 EMPTY == "google.protobuf.Empty"
 Qual(pkg, n) == pkg \o "." \o n
@@ -80,11 +81,13 @@ OpName == "operations/op7"
 RSP == "RunResponse"
 MTA == "RunMetadata"
 
-Sites == {"same", "imported", "unimp_before", "unimp_after", "empty_pb"}
+ExtSites == {"ext_before", "ext_after"}   \* defined in package E, file not imported, listed before / after the service file
+Sites == {"same", "imported", "unimp_before", "unimp_after", "empty_pb"} \cup ExtSites
 \* encl: a message with the same short name ALSO exists in the enclosing package A (file `anc`, imported by the
 \* service file).  It must never capture a relative name: the method's own package wins.
 TypeRefs == {r \in [kind : {"rel", "fq", "empty"}, site : Sites, encl : BOOLEAN] :
                /\ (r.site = "empty_pb" => r.kind = "fq")     \* a relative `Empty` would name P.Empty, which does not exist
+               /\ (r.site \in ExtSites => r.kind = "fq")     \* another package can only be named fully-qualified
                /\ (r.kind = "empty" => r.site = "same")      \* canonical: the site of an unnamed type is irrelevant
                /\ (r.encl => r.kind = "rel")}                \* bound: the enclosing namesake is varied for relative names
 Ref(k, s) == [kind |-> k, site |-> s, encl |-> FALSE]
@@ -118,15 +121,17 @@ FixedHist == [k |-> 1, outcome |-> "response", value |-> MinOf(Values), code |->
 
 -----------------------------------------------------------------------------
 (* The request: files in the order the generator receives them.            *)
-Order == <<"empty", "dep", "anc", "types_imp", "types_unb", "lr", "types_una">>
+Order == <<"empty", "dep", "anc", "types_imp", "types_unb", "ext_b", "lr", "types_una", "ext_a">>
 Home(r) == CASE r.site = "same"         -> "lr"
              [] r.site = "imported"     -> "types_imp"
              [] r.site = "unimp_before" -> "types_unb"
              [] r.site = "unimp_after"  -> "types_una"
              [] r.site = "empty_pb"     -> "empty"
+             [] r.site = "ext_before"   -> "ext_b"
+             [] r.site = "ext_after"    -> "ext_a"
 Used == {"empty", "dep", "lr", Home(c.rsp), Home(c.mta)} \cup (IF c.rsp.encl \/ c.mta.encl THEN {"anc"} ELSE {})
 ReqOrder == SelectSeq(Order, LAMBDA f : f \in Used)
-PkgOf(f) == CASE f = "empty" -> "google.protobuf" [] f = "dep" -> D [] f = "anc" -> A [] OTHER -> P
+PkgOf(f) == CASE f = "empty" -> "google.protobuf" [] f = "dep" -> D [] f = "anc" -> A [] f \in {"ext_b", "ext_a"} -> E [] OTHER -> P
 SimpleMsgs(f) == CASE f = "empty" -> <<"Empty">>
                    [] f = "dep"   -> <<RSP, MTA>>
                    [] f = "anc"   -> (IF c.rsp.encl THEN <<RSP>> ELSE <<>>) \o (IF c.mta.encl THEN <<MTA>> ELSE <<>>)
@@ -139,7 +144,8 @@ ImportsOf(f) == IF f = "lr" THEN SelectSeq(ReqOrder, LAMBDA g : g \in {"empty", 
 \* the text of the annotation
 Written(r, simple) == CASE r.kind = "empty" -> ""
                         [] r.kind = "rel"   -> simple
-                        [] r.kind = "fq"    -> IF r.site = "empty_pb" THEN EMPTY ELSE Qual(P, simple)
+                        [] r.kind = "fq"    -> IF r.site = "empty_pb" THEN EMPTY
+                                               ELSE IF r.site \in ExtSites THEN Qual(E, simple) ELSE Qual(P, simple)
 
 \* what the generator does with it (mutants live here, the property below does not use this)
 ResolveName(r, simple) ==
@@ -183,7 +189,7 @@ ResolveLro ==
            THEN genres' = "TypeError" /\ lro' = lro /\ stage' = "failed"
            ELSE IF LacksName
            THEN genres' = "plain" /\ lro' = lro /\ stage' = "ready"
-           ELSE IF {rn, mn} \subseteq known
+           ELSE IF {rn, mn} \subseteq (IF Mutant = "late_dependency_invisible" THEN known \ Defs("ext_a") ELSE known)
            THEN genres' = "future" /\ lro' = [resp |-> rn, meta |-> mn] /\ stage' = "ready"
            ELSE genres' = "KeyError" /\ lro' = lro /\ stage' = "failed"
     /\ UNCHANGED <<cs, pos, known, rt>>
